@@ -49,6 +49,7 @@ fn run_one(case: &Value, dir: &str, seed: u64, delay_us: u64) -> Value {
 		let (chain, w, calls, panics, done_writers) = (chain.clone(), w.clone(), calls.clone(), panics.clone(), done_writers.clone());
 		handles.push(std::thread::spawn(move || {
 			global::set_local_chain_type(ChainTypes::AutomatedTesting);
+			global::set_local_nrd_enabled(true);
 			verif::set_thread_tag(t);
 			for (i, op) in prog.iter().enumerate() {
 				let k = op["k"].as_str().unwrap().to_string();
@@ -81,6 +82,7 @@ fn run_one(case: &Value, dir: &str, seed: u64, delay_us: u64) -> Value {
 		let (chain, w, calls, panics, stop) = (chain.clone(), w.clone(), calls.clone(), panics.clone(), stop_readers.clone());
 		handles.push(std::thread::spawn(move || {
 			global::set_local_chain_type(ChainTypes::AutomatedTesting);
+			global::set_local_nrd_enabled(true);
 			verif::set_thread_tag(t);
 			let commits: Vec<(u64, _)> = w.commit_of.iter().map(|(c, k)| (*c, *k)).collect();
 			let mut n = 0usize;
@@ -270,6 +272,7 @@ fn protocols(args: &Args) -> i32 {
 fn main() {
 	quiet_panics();
 	global::set_local_chain_type(ChainTypes::AutomatedTesting);
+	global::set_local_nrd_enabled(true);
 	let a: Vec<String> = std::env::args().skip(1).collect();
 	let args = Args::parse(&a);
 	if args.pos.get(0).map(|s| s.as_str()) == Some("protocols") {
